@@ -29,7 +29,7 @@ CLAIMS = {
             "DESIGN.md 5/C04", ""),
     "C05": ("Unmanaged pool: queue/permit/slot invariant under interference including close(); sequence-level conservation of every function (what is pushed, popped, handed back) in isolation; "
             "try_add gives the same object back with Timeout iff full and Closed iff closed; size <= max_size.",
-            "DESIGN.md 5/C05", "status().waiting counting blocked getters is NOT claimed (status().waiting is always 0 in this implementation; reproduced, see DESIGN.md section 7 D7). remove*/From<iterator> are not extracted (function-path closures / iterator adapters). "),
+            "DESIGN.md 5/C05", "status().waiting counting blocked getters is NOT claimed (status().waiting is always 0 in this implementation; reproduced, see DESIGN.md section 7 D7). remove/try_remove/timeout_remove, Pool::new/from_config and From<iterator> (the iterator retyped to the Vec it collects to) are under contract as well. "),
     "C06": ("close(): closes the semaphore, max_size 0, idle objects released and detached (isolation); get on a closed pool gives Closed on both acquisition paths and touches nothing; "
             "return to a closed pool discards; objects outliving the pool (Weak upgrade fails) are no-ops on the pool.",
             "DESIGN.md 5/C06", "The race of close() with a concurrent resize() (closed pool ends with max_size > 0) is a reproduced defect that is documented in DESIGN.md section 7 but not yet expressed as an obligation; waking of waiters by Semaphore::close is tokio's contract. "),
@@ -58,28 +58,38 @@ CLAIMS = {
 CLAIMS["C18"] = ("Config::get_pg_config (real body, extracted) against a setter/getter model of tokio_postgres::Config: one labelled clause per field - scalar options override the URL value, "
             "hosts / hostaddrs / ports are the URL's followed by the singular then the plural field (loop invariants, unbounded), default socket directories only when no host is given, empty "
             "user/dbname count as unset, DbnameMissing / DbnameEmpty / InvalidUrl exactly; the four enum conversions are checked against their expected mapping; panic freedom; get_pool_config passes the pool section through.",
-            "DESIGN.md 5/C18", "tokio_postgres::Config is a trusted model (URL parsing is an uninterpreted function); create_pool/builder/get_manager_config are not extracted (TLS generics, derive(Clone)); the environment variable USER is arbitrary. ")
+            "DESIGN.md 5/C18", "tokio_postgres::Config is a trusted model (URL parsing is an uninterpreted function); builder/create_pool/get_manager_config are under contract too (the manager gets the translated configuration, pool and manager sections reach the pool, timeouts without a runtime are a build error; PoolBuilder through the contracts proved in unit mg); the environment variable USER is arbitrary. ")
 
 CLAIMS["C17"] = ("redis Manager::recycle (real body, extracted; the builder chain of redis::Pipeline modelled with prophecy-style &mut Self contracts): the pipeline sent is exactly [UNWATCH (reply ignored), PING <n>] with "
             "n the decimal of the pre-increment ping_number, ping_number is used once, Ok iff the echo equals n, an error reply is reported as Backend error, any other echo is rejected, cancellation unwinds.",
             "DESIGN.md 5/C17", "What UNWATCH does on the server and that a rejected connection is discarded and replaced (that is C04's contract of try_recycle in unit mg) are outside this unit; Connection::take is a one-line forward to Object::take and is not extracted; freshness of n holds until the counter wraps (A8). ")
-CLAIMS["C19"] = ("redis Config::builder (real body): both url and connection => UrlAndConnectionSpecified, neither => the default local server, otherwise exactly the named server, bad parameters => ConfigError::Redis, pool section passed through; "
-            "the six From conversions between deadpool's and the redis crate's ConnectionAddr / RedisConnectionInfo / ConnectionInfo (type definitions extracted from the registry source) are checked field-wise against their expected mapping, with the round-trip lemmas proved.",
-            "DESIGN.md 5/C19", "NOT covered: the cluster and sentinel flavours (iterator adapters / vec! in their builder), and the serde round trip of PoolConfig/Timeouts/QueueMode (code generated by derive macros: no function of /repo to put under contract). URL parsing is inside redis::Client::open (arbitrary result). ")
+CLAIMS["C19"] = ("all three flavours (units rdc, rdk, rds; real bodies): Config::builder - both URL(s) and connection structure(s) => UrlAndConnectionSpecified, neither => the default local server, otherwise exactly the named servers in order "
+            "(the iter().map().collect() of the URL list expanded to its loop, invariant), bad parameters => ConfigError::Redis, pool section passed through, defaults when omitted; create_pool - config errors as Config(..), timeouts without runtime as Build(..) and never a pool, "
+            "pool section and runtime reach the pool; Manager::new / from_config of each flavour connect to what the parameters name (read_from_replicas, service name, node connection info, server type passed on); "
+            "the twelve From conversions between deadpool's and the redis crate's ConnectionAddr / RedisConnectionInfo / ConnectionInfo / SentinelServerType / TlsMode / SentinelNodeConnectionInfo (type definitions extracted from the registry source) are checked field-wise against their expected mapping, "
+            "with the round-trip lemmas proved; sentinel Config::default; PoolConfig / Timeouts / QueueMode constructors give the documented defaults.",
+            "DESIGN.md 0.4, 5/C19", "NOT covered: the serde round trip of PoolConfig/Timeouts/QueueMode (code generated by derive macros: no function of /repo to put under contract). URL parsing is inside the redis crate (arbitrary result); ClusterClientBuilder and SentinelClient::build are trusted models; "
+            "Pool::builder/config/runtime/build are used through the contracts proved in unit mg (cross-unit assumption). ")
 
 CLAIMS["C15"] = ("the three recycle functions of the SyncWrapper-based managers (r2d2, sqlite, diesel; real bodies, the closure given to interact() run inline) and diesel's perform_recycle_check: a poisoned wrapper is rejected "
             "before any interaction; r2d2: has_broken => rejected, is_valid error => Backend error, Ok only after both checks passed; sqlite: Ok only if the fresh counter value is echoed; diesel: a broken transaction manager is rejected "
             "before anything else for every recycling method, exactly the configured check is issued, ping failure => error; a failed interaction is rejected. With C04 (unit mg) a recycle error means: discarded, detached once, replaced.",
-            "DESIGN.md 5/C15", "PARTIAL by nature: that a panicking closure poisons the mutex is std's behaviour (trusted, the ghost flag `poisoned`); thread placement and cancellation of a running closure are C14 (not applicable); the backends' truthfulness is external. SyncWrapper::interact itself is modelled, not extracted. ")
+            "DESIGN.md 5/C15", "PARTIAL by nature: that a panicking closure poisons the mutex is std's behaviour (trusted, the ghost flag `poisoned`); thread placement and cancellation of a running closure are C14 (unit sy, where SyncWrapper itself is extracted); here SyncWrapper::interact is a model; the backends' truthfulness is external. ")
 
 CLAIMS["C16"] = ("postgres unit (real bodies): RecyclingMethod::query is the documented check per method; Manager::recycle rejects a closed connection without a query and otherwise issues exactly that check (ghost log of what is sent on the connection); "
             "StatementCache: key = (query text, parameter types) - both components - for get/insert/remove, size() = number of cached keys (cache invariant), prepare_typed: a hit returns the cached statement with NO message sent on the connection, a miss sends exactly one "
             "prepare on the passed connection and stores the result under the same key, a failure caches nothing; StatementCaches::attach adds exactly the cache, detach removes exactly the entries of that cache (Vec::retain expanded to its loop, invariant); "
             "Manager::create registers the new client's cache, Manager::detach unregisters it. With C09's detach-exactly-once this gives registry = caches of owned clients.",
-            "DESIGN.md 5/C16", "NOT covered: StatementCaches::clear/remove (they reach caches through Weak::upgrade: no heap model), ClientWrapper::prepare_cached* (one-line forwards needing &self->&mut), that a statement is valid on the server, server-side failures. The text of the clean-up script is a constant of /repo and is not checked. HashMap with a lawful derived Hash/Eq, Cow as its contents and Deref forwarding of ClientWrapper are modelled (trusted). ")
+            "DESIGN.md 5/C16", "StatementCaches::clear/remove are proved against a heap of live caches addressed by the identity a Weak carries (every registered live cache is cleared / loses exactly that key, no other cache is touched); a failed check on an open connection is an error (query outcome log). NOT covered: ClientWrapper::prepare_cached* (one-line forwards needing &self->&mut), that a statement is valid on the server, server-side failures. The text of the clean-up script is a constant of /repo and is not checked. HashMap with a lawful derived Hash/Eq, Cow as its contents and Deref forwarding of ClientWrapper are modelled (trusted). ")
+
+CLAIMS["C14"] = ("SyncWrapper (unit sy; real bodies of new, interact, is_mutex_poisoned, Drop::drop, with the two `move ||` closures lifted mechanically to functions of their own): calls into user code (the creating closure, the closure given to interact, "
+            "the destructor of the wrapped value) carry a flag saying whether the code runs inside a spawn_blocking job; their contracts require it, so a closure call or a destruction outside a job fails a named precondition; "
+            "the interact job: lock, Aborted exactly when the value is gone, a panic of the closure poisons the mutex (guard dropped while unwinding) and a poisoned mutex panics again; interact: a panic is reported as InteractError::Panic exactly when the mutex ends up poisoned, "
+            "poisoned from then on, the wrapper stays usable; drop: the value is taken out under the lock (poisoned or not) inside a background job, so it is destroyed once and never seen by a later closure; no lock().unwrap() outside a job.",
+            "DESIGN.md 0.7", "PARTIAL by nature: OS threads do not exist in the verifier - 'runs on a thread where blocking is allowed' is the contract of deadpool_runtime::spawn_blocking (trusted) and the proof is that every use of the value sits inside such a job; "
+            "jobs are evaluated eagerly (one schedule: the job runs when it is spawned), so 'after any closure still using the value has finished' rests on std's Mutex (trusted), not on an interleaving argument; poisoning is std's behaviour (model PMutex). ")
 
 NOT_APPLICABLE = {
-    "C14": "thread placement, ordering of a destructor after a still-running cancelled closure, and mutex poisoning are not expressible as contracts: Verus has no notion of OS-thread identity, unwinding or poisoning, Kani has no threads; a syntactic scope fact would misrepresent the property (DESIGN.md 5/C14)",
 }
 PENDING = {
 }
